@@ -94,6 +94,11 @@ const (
 
 // probeInChild runs probe on the input in a fresh process under RLIMIT_AS and an absolute deadline.
 func probeInChild(t *engine.T, in []byte, trigger string) *engine.Violation {
+	return probeInChildCPU(t, in, trigger, childCPU)
+}
+
+// probeInChildCPU: as probeInChild with a processor-time limit of the caller's choosing (seconds).
+func probeInChildCPU(t *engine.T, in []byte, trigger string, cpu int) *engine.Violation {
 	dir := os.Getenv("MCVERIF_SCRATCH")
 	f, err := os.CreateTemp(dir, "c04-in-*")
 	if err != nil {
@@ -111,7 +116,7 @@ func probeInChild(t *engine.T, in []byte, trigger string) *engine.Violation {
 	var out []byte
 	done := make(chan struct{})
 	go func() {
-		out, err = exec.CommandContext(ctx, self, "--aux", "c04probe", f.Name()).CombinedOutput()
+		out, err = exec.CommandContext(ctx, self, "--aux", "c04probe", f.Name(), fmt.Sprint(cpu)).CombinedOutput()
 		close(done)
 	}()
 	for waiting := true; waiting; {
@@ -148,7 +153,13 @@ func Aux(args []string) int {
 	var lim syscall.Rlimit
 	lim.Cur, lim.Max = childMemLimit, childMemLimit
 	_ = syscall.Setrlimit(syscall.RLIMIT_AS, &lim)
-	_ = syscall.Setrlimit(syscall.RLIMIT_CPU, &syscall.Rlimit{Cur: childCPU, Max: childCPU + 5})
+	cpu := uint64(childCPU)
+	if len(args) > 1 {
+		if v, err := strconv.ParseUint(args[1], 10, 64); err == nil && v > 0 {
+			cpu = v
+		}
+	}
+	_ = syscall.Setrlimit(syscall.RLIMIT_CPU, &syscall.Rlimit{Cur: cpu, Max: cpu + 5})
 	in, err := os.ReadFile(args[0])
 	if err != nil {
 		return 2
@@ -276,7 +287,9 @@ func stringValues(c *engine.Ctx, name string, root *jsonfault.Node, paths []json
 		for _, ev := range gen.EnumerationsOf(orig) {
 			pi, ev := pi, ev
 			ne++
-			c.Case(func() any { return map[string]string{"base": name, "path": labels[pi], "original": orig, "enumerated": ev} }, func(t *engine.T) *engine.Violation {
+			c.Case(func() any {
+				return map[string]string{"base": name, "path": labels[pi], "original": orig, "enumerated": ev}
+			}, func(t *engine.T) *engine.Violation {
 				rb, _ := json.Marshal(ev)
 				raw := string(rb)
 				f := jsonfault.Fault{Name: "string", Apply: func(p *jsonfault.Node, i int) { p.Elems[i] = &jsonfault.Node{Raw: raw} }}
@@ -381,6 +394,141 @@ func growth(c *engine.Ctx, name string, root *jsonfault.Node, paths []jsonfault.
 
 // referenceGraphs: totality on reference structures a schema fault cannot build: every small SPDX relationship graph
 // (cycles, mutual containment, no declared root), generated by C05's generator.
+// denseGraphs: inputs whose references form graphs with very many paths although the input is small - layered graphs
+// with complete connections between consecutive layers (2^L paths in 2L elements), complete acyclic graphs, long
+// chains, the same with one edge closing a cycle - under every relationship type of the SPDX library's enumeration
+// and as CycloneDX dependencies. Each parse runs in a child process limited to 20 s of processor time (an input of
+// 30 KB that needs more is not parsed in polynomial time); processor time does not depend on the load of the machine.
+func denseGraphs(c *engine.Ctx) {
+	c.Group("dense-reference-graphs")
+	rels := []string{"DEPENDS_ON", "CONTAINS", "DESCRIBES"}
+	for _, r := range gen.EnumerationsOf("DEPENDS_ON") {
+		if r == strings.ToUpper(r) && !strings.ContainsAny(r, " .") {
+			rels = append(rels, r)
+		}
+	}
+	type shape struct {
+		name  string
+		n     int
+		edges func() [][2]int
+	}
+	ladder := func(L int) [][2]int {
+		var e [][2]int
+		for l := 0; l+1 < L; l++ {
+			for a := 0; a < 2; a++ {
+				for b := 0; b < 2; b++ {
+					e = append(e, [2]int{2*l + a, 2*(l+1) + b})
+				}
+			}
+		}
+		return e
+	}
+	complete := func(n int) [][2]int {
+		var e [][2]int
+		for i := 0; i < n; i++ {
+			for j := i + 1; j < n; j++ {
+				e = append(e, [2]int{i, j})
+			}
+		}
+		return e
+	}
+	chain := func(n int) [][2]int {
+		var e [][2]int
+		for i := 0; i+1 < n; i++ {
+			e = append(e, [2]int{i, i + 1})
+		}
+		return e
+	}
+	shapes := []shape{
+		{"ladder-48-layers", 96, func() [][2]int { return ladder(48) }},
+		{"ladder-48-layers+back-edge", 96, func() [][2]int { return append(ladder(48), [2]int{95, 0}) }},
+		{"complete-acyclic-40", 40, func() [][2]int { return complete(40) }},
+		{"chain-1500", 1500, func() [][2]int { return chain(1500) }},
+		{"chain-1500-reversed-order", 1500, func() [][2]int {
+			e := chain(1500)
+			for i, j := 0, len(e)-1; i < j; i, j = i+1, j-1 {
+				e[i], e[j] = e[j], e[i]
+			}
+			return e
+		}},
+	}
+	spdx := func(sh shape, rel string) string {
+		var sb strings.Builder
+		sb.WriteString(`{"spdxVersion":"SPDX-2.3","dataLicense":"CC0-1.0","SPDXID":"SPDXRef-DOCUMENT","name":"g","documentNamespace":"https://example.com/g","creationInfo":{"created":"2024-01-01T00:00:00Z","creators":["Tool: t"]},"documentDescribes":["SPDXRef-p0"],"packages":[`)
+		for i := 0; i < sh.n; i++ {
+			if i > 0 {
+				sb.WriteString(",")
+			}
+			fmt.Fprintf(&sb, `{"SPDXID":"SPDXRef-p%d","name":"p%d","downloadLocation":"NOASSERTION"}`, i, i)
+		}
+		sb.WriteString(`],"relationships":[`)
+		for i, e := range sh.edges() {
+			if i > 0 {
+				sb.WriteString(",")
+			}
+			fmt.Fprintf(&sb, `{"spdxElementId":"SPDXRef-p%d","relationshipType":%q,"relatedSpdxElement":"SPDXRef-p%d"}`, e[0], rel, e[1])
+		}
+		sb.WriteString(`]}`)
+		return sb.String()
+	}
+	cdx := func(sh shape) string {
+		var sb strings.Builder
+		sb.WriteString(`{"bomFormat":"CycloneDX","specVersion":"1.5","version":1,"metadata":{"component":{"bom-ref":"p0","type":"application","name":"p0"}},"components":[`)
+		for i := 1; i < sh.n; i++ {
+			if i > 1 {
+				sb.WriteString(",")
+			}
+			fmt.Fprintf(&sb, `{"bom-ref":"p%d","type":"library","name":"p%d"}`, i, i)
+		}
+		sb.WriteString(`],"dependencies":[`)
+		dep := map[int][]int{}
+		var order []int
+		for _, e := range sh.edges() {
+			if _, ok := dep[e[0]]; !ok {
+				order = append(order, e[0])
+			}
+			dep[e[0]] = append(dep[e[0]], e[1])
+		}
+		for i, f := range order {
+			if i > 0 {
+				sb.WriteString(",")
+			}
+			fmt.Fprintf(&sb, `{"ref":"p%d","dependsOn":[`, f)
+			for j, to := range dep[f] {
+				if j > 0 {
+					sb.WriteString(",")
+				}
+				fmt.Fprintf(&sb, `"p%d"`, to)
+			}
+			sb.WriteString(`]}`)
+		}
+		sb.WriteString(`]}`)
+		return sb.String()
+	}
+	c.Bound("dense-reference-graphs", fmt.Sprintf("%d graph shapes (layered with 2^48 paths, complete acyclic on 40 elements, chains of 1500, with and without a cycle-closing edge) x (%d SPDX relationship types + CycloneDX dependencies), each parsed in a child process limited to 20 s of processor time", len(shapes), len(rels)))
+	for _, sh := range shapes {
+		sh := sh
+		for _, rel := range rels {
+			rel := rel
+			if strings.HasPrefix(sh.name, "chain") && rel != "DEPENDS_ON" && rel != "CONTAINS" {
+				continue
+			}
+			c.Case(func() any {
+				return map[string]any{"group": "dense-reference-graphs", "shape": sh.name, "format": "spdx", "relationship": rel}
+			}, func(t *engine.T) *engine.Violation {
+				t.State("dense|" + sh.name + "|" + rel)
+				return probeInChildCPU(t, []byte(spdx(sh, rel)), "dense-graph:"+sh.name, 20)
+			})
+		}
+		c.Case(func() any {
+			return map[string]any{"group": "dense-reference-graphs", "shape": sh.name, "format": "cyclonedx"}
+		}, func(t *engine.T) *engine.Violation {
+			t.State("dense|" + sh.name + "|cdx")
+			return probeInChildCPU(t, []byte(cdx(sh)), "dense-graph:"+sh.name, 20)
+		})
+	}
+}
+
 func referenceGraphs(c *engine.Ctx) {
 	c.Group("spdx-reference-graphs")
 	maxRel := 2
@@ -398,6 +546,7 @@ func referenceGraphs(c *engine.Ctx) {
 
 func Run(c *engine.Ctx) {
 	referenceGraphs(c)
+	denseGraphs(c)
 	decoderMembers(c)
 	streamKindsGroup(c)
 	rw.SilenceStdout()
